@@ -99,6 +99,13 @@ def build_dens(spec):
     d = pm.DomainDefinition(nelx, nely, nelz)
     x = np.array(spec["x"], dtype=float)
     npd = spec.get("nonpadding")
+    # instance isolation: a DECOY filter with the same radius, dimension and number of elements but another grid shape
+    # (axes rotated) is constructed and evaluated first; nothing it computed may leak into the filter under test
+    rot = (nely, nelx, nelz) if nelz == 0 else (nely, nelz, nelx)
+    if rot != (nelx, nely, nelz) and min(rot[:2]) > 0:
+        dd = pm.DomainDefinition(*rot)
+        decoy = pm.DensityFilter(pm.Signal('xd', np.linspace(0.0, 1.0, dd.nel)), domain=dd, radius=spec["radius"])
+        decoy.response()
     m = pm.DensityFilter(pm.Signal('x', x), domain=d, radius=spec["radius"],
                          nonpadding=(np.array(npd, dtype=int) if npd is not None else None))
     return m, d
